@@ -1,22 +1,220 @@
 /-
-  C11 -- reading any byte sequence terminates safely: theorems about the decoders of Model/C11.lean.
+  C11 -- reading any byte sequence terminates safely: theorems about the decoder models of Model/C11.lean
+  (BMP, PNM, TARGA; statement-by-statement models of the GIL readers, see the header of that file).
+
+  The full statement of the property,
+
+      C11_safe : ∀ f dev bytes st, safe (decode f dev bytes st)        (safe = neither `ub _ _` nor `hang _`)
+
+  is FALSE for the current code. Below: machine-checked witnesses (`*_witness`, by `decide`, each also replayed on the
+  real readers under ASan/UBSan by the harness: checks/C11_witnesses.json), the negation of the full statement per
+  format, regression theorems for the two defects already fixed in /repo, and what is proven for ALL inputs:
+  the fuel bounds of every loop that is not bounded by a counter (termination proportional to the input length).
+
+  Only property theorems live here (C11_*); helper lemmas are in Lemmas/C11.lean.
 -/
-import GilVerif.Model.C11
+import GilVerif.Lemmas.C11
 
 namespace GilVerif.Props.C11
-open GilVerif.Model.C11
+open GilVerif.Model.C11 GilVerif.Lemmas.C11
 
-/-- packed little-endian hex literal -> bytes (most significant digit pair first) -/
+/-- packed hex literal -> the `k` bytes it denotes (most significant digit pair first) -/
 def bytesOfHex (n : Nat) : Nat → List UInt8 → List UInt8
   | 0, acc => acc
   | k + 1, acc => bytesOfHex (n / 256) k (UInt8.ofNat (n % 256) :: acc)
 
-def full (e : Entry) (d : Dst) : Settings := { entry := e, dst := d, x0 := 0, y0 := 0, dw := 0, dh := 0, vw := 0, vh := 0 }
+def ubSite : Outcome → Option String
+  | .ub s _ => some s
+  | _ => none
+def isOk : Outcome → Bool
+  | .ok _ => true
+  | _ => false
+def isHang : Outcome → Bool
+  | .hang _ => true
+  | _ => false
+/-- what the property demands of one read -/
+def safe : Outcome → Bool
+  | .ok _ => true
+  | .err _ => true
+  | _ => false
 
-/-- BMP, 40-byte header, height = INT_MIN: `-_info._height` overflows (reader_backend.hpp: read_header) -/
+/-! ## witnesses: the current code violates the property (one per defect site) -/
+/-- BMP, 40-byte header, height = INT_MIN: `-_info._height` overflows (reader_backend.hpp: read_header), through read_image_info -/
 theorem C11_bmp_int_min_height_witness :
-    decode .bmp .file (bytesOfHex 0x424d360000000000000036000000280000000200000000000080010018000000000000000000130b0000130b00000000000000000000 54 []) (full .info .none)
-      = .ub "negation-overflow@extension/io/bmp/detail/reader_backend.hpp:read_header" "_info._height = -_info._height with height == INT_MIN" := by
-  decide
+    ubSite (decode .bmp .file (bytesOfHex 0x424d360000000000000036000000280000000200000000000080010018000000000000000000130b0000130b00000000000000000000 54 [])
+      { entry := .info, dst := .none, x0 := 0, y0 := 0, dw := 0, dh := 0, vw := 0, vh := 0 })
+      = some "negation-overflow@extension/io/bmp/detail/reader_backend.hpp:read_header" := by
+  decide +kernel
+/-- 8-bit BMP declaring 2 palette entries, pixel value 200: `_palette[c]` outside the vector -/
+theorem C11_bmp_palette_index_witness :
+    ubSite (decode .bmp .file (bytesOfHex 0x424d42000000000000003e000000280000000200000001000000010008000000000000000000130b0000130b000002000000000000001e140a003c32280000c80000 66 [])
+      { entry := .image, dst := .rgba8, x0 := 0, y0 := 0, dw := 0, dh := 0, vw := 0, vh := 0 }) = some "vector-index@extension/io/bmp/detail/read.hpp:read_palette_image" := by
+  decide +kernel
+/-- 16-bit BI_BITFIELDS BMP with red mask 0: shift by trailing_zeros(0) = 32 -/
+theorem C11_bmp_mask_zero_shift_witness :
+    ubSite (decode .bmp .file (bytesOfHex 0x424d460000000000000042000000280000000100000001000000010010000300000000000000130b0000130b0000000000000000000000000000e00700001f000000ffff0000 70 [])
+      { entry := .image, dst := .rgb8, x0 := 0, y0 := 0, dw := 0, dh := 0, vw := 0, vh := 0 }) = some "shift-exponent@extension/io/bmp/detail/read.hpp:read_data_15" := by
+  decide +kernel
+/-- 16-bit BI_BITFIELDS BMP with red mask 0xFFFF: shift by unsigned(8 - 16) -/
+theorem C11_bmp_mask_wide_shift_witness :
+    ubSite (decode .bmp .file (bytesOfHex 0x424d460000000000000042000000280000000100000001000000010010000300000000000000130b0000130b00000000000000000000ffff0000e00700001f000000ffff0000 70 [])
+      { entry := .image, dst := .rgb8, x0 := 0, y0 := 0, dw := 0, dh := 0, vw := 0, vh := 0 }) = some "shift-exponent@extension/io/bmp/detail/read.hpp:read_data_15" := by
+  decide +kernel
+/-- RLE4 BMP 3 pixels wide, absolute run of 4: the low nibble of the second byte is written past the row buffer -/
+theorem C11_bmp_rle4_absolute_overrun_witness :
+    ubSite (decode .bmp .file (bytesOfHex 0x424d44000000000000003e000000280000000300000001000000010004000200000000000000130b0000130b000002000000000000001e140a003c322800000401010001 68 [])
+      { entry := .image, dst := .rgb8, x0 := 0, y0 := 0, dw := 0, dh := 0, vw := 0, vh := 0 }) = some "heap-buffer-overflow@extension/io/bmp/detail/read.hpp:read_palette_image_rle" := by
+  decide +kernel
+/-- the first 30 bytes of a 2x2 24-bit BMP through std::istream: read_uint16 consumes an uninitialised array -/
+theorem C11_istream_short_read_witness :
+    ubSite (decode .bmp .stream (bytesOfHex 0x424d46000000000000003600000028000000020000000200000001001800 30 [])
+      { entry := .image, dst := .rgb8, x0 := 0, y0 := 0, dw := 0, dh := 0, vw := 0, vh := 0 }) = some "uninit@io/device.hpp:istream_device::read" := by
+  decide +kernel
+/-- 2x2 24-bit BMP without its last 3 bytes through FILE*: the short row read is accepted, stale bytes become pixels -/
+theorem C11_short_row_read_witness :
+    ubSite (decode .bmp .file (bytesOfHex 0x424d460000000000000036000000280000000200000002000000010018000000000000000000130b0000130b0000000000000000000001020304050600000708090a0b 67 [])
+      { entry := .image, dst := .rgb8, x0 := 0, y0 := 0, dw := 0, dh := 0, vw := 0, vh := 0 }) = some "inconsistent-data-accepted" := by
+  decide +kernel
+/-- 24-bit BMP with width 0: BOOST_ASSERT in init_image (TARGA rejects such headers, BMP and PNM do not) -/
+theorem C11_bmp_zero_width_witness :
+    ubSite (decode .bmp .file (bytesOfHex 0x424d460000000000000036000000280000000000000002000000010018000000000000000000130b0000130b0000000000000000000001020304050600000708090a0b0c0000 70 [])
+      { entry := .image, dst := .rgb8, x0 := 0, y0 := 0, dw := 0, dh := 0, vw := 0, vh := 0 }) = some "assert@io/reader_base.hpp:init_image" := by
+  decide +kernel
+/-- 2x2 24-bit BMP, settings top_left (1,0) dim (2,2): columns beyond the row buffer are read -/
+theorem C11_settings_beyond_image_witness :
+    ubSite (decode .bmp .file (bytesOfHex 0x424d460000000000000036000000280000000200000002000000010018000000000000000000130b0000130b0000000000000000000001020304050600000708090a0b0c0000 70 [])
+      { entry := .image, dst := .rgb8, x0 := 1, y0 := 0, dw := 2, dh := 2, vw := 0, vh := 0 }) = some "heap-buffer-overflow@extension/io/bmp/detail/read.hpp:read_data" := by
+  decide +kernel
+/-- 24-bit BMP with width 0x7FFFFFFF through the scanline reader: `_info._width * 3` overflows int -/
+theorem C11_bmp_pitch_overflow_witness :
+    ubSite (decode .bmp .file (bytesOfHex 0x424d46000000000000003600000028000000ffffff7f02000000010018000000000000000000130b0000130b0000000000000000000001020304050600000708090a0b0c0000 70 [])
+      { entry := .scan, dst := .none, x0 := 0, y0 := 0, dw := 0, dh := 0, vw := 0, vh := 0 }) = some "signed-integer-overflow@extension/io/bmp/detail/scanline_read.hpp:initialize" := by
+  decide +kernel
+/-- `P2 2 2 255 1 2 x 4` into a 2x2 view: the second row is never written, the read reports success -/
+theorem C11_pnm_text_row_incomplete_witness :
+    ubSite (decode .pnm .file (bytesOfHex 0x50320a3220320a3235350a312032207820340a 19 [])
+      { entry := .view, dst := .gray8, x0 := 0, y0 := 0, dw := 0, dh := 0, vw := 2, vh := 2 }) = some "inconsistent-data-accepted" := by
+  decide +kernel
+/-- BMP with a 41-byte info header and height -2 through the scanline reader: iterating begin()..end() does not terminate -/
+theorem C11_bmp_v4_negative_height_hang_witness :
+    isHang (decode .bmp .file (bytesOfHex 0x424d4700000000000000370000002900000002000000feffffff010018000000000000000000130b0000130b000000000000000000000001020304050600000708090a0b0c0000 71 [])
+      { entry := .scan, dst := .none, x0 := 0, y0 := 0, dw := 0, dh := 0, vw := 0, vh := 0 }) = true := by
+  decide +kernel
+/-! ## the full statement is false for each format's current reader -/
+
+/-- OPEN (not provable: false today): `∀ dev bytes st, safe (decode .bmp dev bytes st)`; its negation: -/
+theorem C11_safe_bmp_false : ¬ ∀ (dev : Dev) (bytes : List UInt8) (st : Settings), safe (decode .bmp dev bytes st) = true := by
+  intro h
+  have := h .file (bytesOfHex 0x424d42000000000000003e000000280000000200000001000000010008000000000000000000130b0000130b000002000000000000001e140a003c32280000c80000 66 [])
+      { entry := .image, dst := .rgba8, x0 := 0, y0 := 0, dw := 0, dh := 0, vw := 0, vh := 0 }
+  revert this
+  decide +kernel
+
+/-- OPEN (false today): `∀ dev bytes st, safe (decode .pnm dev bytes st)`; its negation: -/
+theorem C11_safe_pnm_false : ¬ ∀ (dev : Dev) (bytes : List UInt8) (st : Settings), safe (decode .pnm dev bytes st) = true := by
+  intro h
+  have := h .file (bytesOfHex 0x50320a3220320a3235350a312032207820340a 19 [])
+      { entry := .view, dst := .gray8, x0 := 0, y0 := 0, dw := 0, dh := 0, vw := 2, vh := 2 }
+  revert this
+  decide +kernel
+
+/-- OPEN (false today): `∀ dev bytes st, safe (decode .tga dev bytes st)`; its negation (a raw 2x2 file cut after its first row: -/
+theorem C11_safe_tga_false : ¬ ∀ (dev : Dev) (bytes : List UInt8) (st : Settings), safe (decode .tga dev bytes st) = true := by
+  intro h
+  have := h .file (bytesOfHex 0x000002000000000000000000020002001800010203040506 24 [])
+      { entry := .image, dst := .rgb8, x0 := 0, y0 := 0, dw := 0, dh := 0, vw := 0, vh := 0 }
+  revert this
+  decide +kernel
+/-! ## defects already fixed in /repo stay fixed (the pre-fix tree wrote out of bounds on these inputs) -/
+
+/-- PNM text token of 40 digits: now `std::ios_base::failure` ("Number too long"), formerly a stack-buffer-overflow -/
+theorem C11_pnm_long_token_is_error :
+    decode .pnm .file (bytesOfHex 0x50320a3220310a3235350a3131313131313131313131313131313131313131313131313131313131313131313131313131313120370a 54 [])
+      { entry := .image, dst := .gray8, x0 := 0, y0 := 0, dw := 0, dh := 0, vw := 0, vh := 0 } = .err "io" := by
+  decide +kernel
+
+/-- TARGA 2x2 RLE with one 128-pixel packet: now an error ("packet exceeds the image size"), formerly a heap-buffer-overflow -/
+theorem C11_targa_rle_overrun_is_error :
+    decode .tga .file (bytesOfHex 0x00000a000000000000000000020002001800ff010203 22 [])
+      { entry := .image, dst := .rgb8, x0 := 0, y0 := 0, dw := 0, dh := 0, vw := 0, vh := 0 } = .err "io" := by
+  decide +kernel
+
+/-! ## the models decode valid files (the witnesses above are not artefacts of a model that rejects everything) -/
+
+theorem C11_valid_bmp24_ok : isOk (decode .bmp .file (bytesOfHex 0x424d460000000000000036000000280000000200000002000000010018000000000000000000130b0000130b0000000000000000000001020304050600000708090a0b0c0000 70 [])
+      { entry := .image, dst := .rgb8, x0 := 0, y0 := 0, dw := 0, dh := 0, vw := 0, vh := 0 }) = true := by decide +kernel
+theorem C11_valid_targa_rle_ok : isOk (decode .tga .file (bytesOfHex 0x00000a00000000000000000002000200180083010203 22 [])
+      { entry := .image, dst := .rgb8, x0 := 0, y0 := 0, dw := 0, dh := 0, vw := 0, vh := 0 }) = true := by decide +kernel
+theorem C11_valid_pnm_text_ok : isOk (decode .pnm .file (bytesOfHex 0x50320a3220320a3235350a312032203320340a 19 [])
+      { entry := .image, dst := .gray8, x0 := 0, y0 := 0, dw := 0, dh := 0, vw := 0, vh := 0 }) = true := by decide +kernel
+/-! ## termination: every loop that is not bounded by a counter has a fuel bound (ALL inputs, both devices)
+
+  The models give such a loop `unread bytes + 1` units of fuel at its entry (`fuelHere`); the theorems say this is
+  never exhausted: each iteration consumes at least one input byte or ends the loop. So the number of iterations is
+  at most the file length + 1; all other loops are counted by header fields bounded by the allocation they follow.
+  (`Stop.hang` remains reachable only at the two genuine non-termination sites witnessed above / in the notes.) -/
+
+/-- result of running an action: it is not `hang` -/
+def notHang {α} (r : Except Stop (α × St)) : Prop := ∀ w, r ≠ .error (.hang w)
+
+private theorem notHang_of_NHs {α} {m : M α} {s : St} (h : NHs m s) : notHang (m s) := by
+  intro w hw
+  unfold NHs at h
+  rw [hw] at h
+  exact h w rfl
+
+/-- BMP RLE4/RLE8 (`read_palette_image_rle`, the `while (!finished)` loop) -/
+theorem C11_terminates_bmp_rle (i : Bmp.Info) (pitch : Int) (st : Settings) (dimx dimy : Int) (pal : Bmp.Palette) (yend yinc : Int)
+    (r : Bmp.Rle) (d : Dest) (s : St) (fuel : Nat) (hf : s.rest.length < fuel) :
+    notHang ((Bmp.rleLoop i pitch st dimx dimy pal yend yinc fuel r d) s) :=
+  notHang_of_NHs (bmp_rleLoop_nhs i pitch st dimx dimy pal yend yinc fuel r d s hf)
+
+/-- TARGA RLE (`read_rle_data`, the packet loop) -/
+theorem C11_terminates_targa_rle (bpp size fuel pixel : Nat) (acc : List (List Nat)) (s : St) (hf : s.rest.length < fuel) :
+    notHang ((Tga.rleLoop bpp size fuel pixel acc) s) :=
+  notHang_of_NHs (tga_rleLoop_nhs bpp size fuel pixel acc s hf)
+
+/-- PNM header (`read_header`: comment skipping, white space, `read_int`), any state, both devices -/
+theorem C11_terminates_pnm_header (s : St) : notHang (Pnm.readHeader s) :=
+  notHang_of_NHs (nh_pnm_readHeader s)
+
+/-- PNM text rows (`read_text_row`: the token loop over `getc_unchecked`) -/
+theorem C11_terminates_pnm_text_row (site : String) (maxv : Int) (process : Bool) (n x : Nat) (row : List Nat) (s : St) :
+    notHang ((Pnm.textSamples site maxv process n x row) s) :=
+  notHang_of_NHs (nh_pnm_textSamples site maxv process n x row s)
+
+/-- whole-entry corollary: read_image_info on a PNM stream never hangs, whatever the bytes and the device -/
+theorem C11_pnm_info_terminates (dev : Dev) (bytes : List UInt8) :
+    isHang (decode .pnm dev bytes { entry := .info, dst := .none, x0 := 0, y0 := 0, dw := 0, dh := 0, vw := 0, vh := 0 }) = false := by
+  unfold decode runRaw
+  simp only
+  have key := nh_pnm_readHeader { data := bytes.map UInt8.toNat, pos := 0, rest := bytes.map UInt8.toNat, failed := false, dev := dev, taint := none }
+  unfold NHs at key
+  unfold Pnm.run
+  rw [StateT.run, bind_eq]
+  cases h : Pnm.readHeader { data := bytes.map UInt8.toNat, pos := 0, rest := bytes.map UInt8.toNat, failed := false, dev := dev, taint := none } with
+  | error e =>
+    rw [h] at key
+    cases e with
+    | err k => rfl
+    | ub a b => rfl
+    | hang w => exact absurd rfl (key w)
+  | ok p =>
+    obtain ⟨i, s'⟩ := p
+    simp only [Pure.pure, StateT.pure, Except.pure]
+    cases s'.taint <;> rfl
+
+example : (3 : Nat) < 4 := by decide   -- (the hypotheses `s.rest.length < fuel` are what `fuelHere` establishes: rest.length < rest.length + 1)
+
+/-
+  -- OPEN (not proven): C11_safe_partial : WF f bytes st → safe (decode f .file bytes st)
+  --   with WF the decidable conjunction "declared sizes ≤ data present, palette indices < palette size, bit-field masks
+  --   contiguous and ≤ 8 bits wide, height ≠ INT_MIN, width,height ≥ 1, settings inside the image, RLE4 absolute runs
+  --   inside the row" and C11_wf_encode : WF (encode img). The correspondence run carries this clause: on every generated
+  --   input the real reader and the model agree, and every input on which the model reports `ub`/`hang` falls under one of
+  --   the witnessed defect sites (known_findings.json).
+  -- OPEN (not proven): C11_terminates for whole `decode` (composition of the loop bounds above through every reader
+  --   function); proven for the loops themselves and for the PNM read_image_info entry.
+-/
 
 end GilVerif.Props.C11
